@@ -334,6 +334,11 @@ package geom
 //@   trusted
 //@ func GeometryCollection.ForceCoordinatesType
 //@   trusted
+//@   ensures result.ctype == newCType
+
+//@ func Geometry.ForceCoordinatesType
+//@   requires newCType < 4
+//@   ensures CTypeOf(result) == newCType && result.gtype == g.gtype && result.ptr != nil
 //@ func GeometryCollection.Simplify
 //@   trusted
 //@ func NewGeometryCollection
@@ -343,12 +348,14 @@ package geom
 //@   ensures len(geoms) == 0 ==> result.ctype == 0
 //@   ensures HasZ(result.ctype) ==> (forall k :: 0 <= k && k < len(geoms) ==> HasZ(CTypeOf(geoms[k])))
 //@   ensures HasM(result.ctype) ==> (forall k :: 0 <= k && k < len(geoms) ==> HasM(CTypeOf(geoms[k])))
+//@   ensures forall k :: 0 <= k && k < len(result.geoms) ==> CTypeOf(result.geoms[k]) == result.ctype
 //@   loop 0 invariant -1 <= rangeindex && ctype <= 3
 //@   loop 0 invariant HasZ(ctype) ==> (forall k :: 0 <= k && k <= rangeindex ==> HasZ(CTypeOf(geoms[k])))
 //@   loop 0 invariant HasM(ctype) ==> (forall k :: 0 <= k && k <= rangeindex ==> HasM(CTypeOf(geoms[k])))
 //@   loop 1 invariant -1 <= rangeindex && rangeindex < len(geoms) && ctype <= 3 && len(geoms) == len(old(geoms)) && len(geoms) > 0 && offset(geoms) == 0 && fresh(geoms)
 //@   loop 1 invariant HasZ(ctype) ==> (forall k :: 0 <= k && k < len(old(geoms)) ==> HasZ(CTypeOf(old(geoms)[k])))
 //@   loop 1 invariant HasM(ctype) ==> (forall k :: 0 <= k && k < len(old(geoms)) ==> HasM(CTypeOf(old(geoms)[k])))
+//@   loop 1 invariant forall k :: 0 <= k && k <= rangeindex ==> CTypeOf(geoms[k]) == ctype
 //@   loop 1 assume forall k :: 0 <= k && k < len(geoms) ==> GShape(geoms[k]) && GInv(geoms[k])   // A-frame-rp: recursive invariant across stores into the fresh copy
 
 //@ func Geometry.appendDump
